@@ -7,8 +7,11 @@ import (
 	"flag"
 	"fmt"
 	"os"
+	"runtime"
 	"sort"
+	"strconv"
 	"strings"
+	"time"
 )
 
 type propRunner func(c *Ctx)
@@ -57,7 +60,7 @@ func main() {
 			os.Exit(2)
 		}
 		c := NewCtx(prop, *tier, *seed, *driver)
-		r(c)
+		runWithStallWatchdog(c, r)
 		writeJSON(*out, c.Finish())
 	case "eval":
 		os.Exit(evalMain(strings.Join(os.Args[2:], " ")))
@@ -66,5 +69,61 @@ func main() {
 	default:
 		fmt.Fprintln(os.Stderr, "unknown command", os.Args[1])
 		os.Exit(2)
+	}
+}
+
+// runWithStallWatchdog runs the property's runner; when nothing at all has been registered for a
+// long time (no case, no count, no evaluation), some call into the library has not returned — a
+// deadlock or an endless loop that the runner's own per-case limits did not cover. That is
+// reported as a failing observation with the stacks of the goroutines that are inside the
+// library, and the run ends with what it has, instead of sitting in the outer time limit.
+func runWithStallWatchdog(c *Ctx, r propRunner) {
+	limit := 420 * time.Second
+	if !c.Quick() {
+		limit = 1800 * time.Second
+	}
+	if v, err := strconv.Atoi(os.Getenv("VERIF_STALL_S")); err == nil && v > 0 {
+		limit = time.Duration(v) * time.Second
+	}
+	done := make(chan struct{})
+	go func() {
+		defer close(done)
+		r(c)
+	}()
+	tick := time.NewTicker(5 * time.Second)
+	defer tick.Stop()
+	last, since := c.Activity(), time.Now()
+	for {
+		select {
+		case <-done:
+			return
+		case <-tick.C:
+			if a := c.Activity(); a != last {
+				last, since = a, time.Now()
+				continue
+			}
+			if time.Since(since) < limit {
+				continue
+			}
+			buf := make([]byte, 1<<22)
+			buf = buf[:runtime.Stack(buf, true)]
+			var inside []string
+			for _, g := range strings.Split(string(buf), "\n\n") {
+				if strings.Contains(g, "github.com/elliotchance/gedcom") && !strings.Contains(g, "runWithStallWatchdog") {
+					lines := strings.Split(g, "\n")
+					if len(lines) > 14 {
+						lines = lines[:14]
+					}
+					inside = append(inside, strings.Join(lines, "\n"))
+				}
+				if len(inside) >= 6 {
+					break
+				}
+			}
+			c.Oracle("", "a call into the library did not return (the run registered nothing for a long time)",
+				map[string]interface{}{"stalled_for_s": int(limit / time.Second), "goroutines_inside_the_library": inside}, "hang", "every call returns")
+			c.Notes = append(c.Notes, "the run was cut short by the stall watchdog; cases after the stall were not run")
+			return
+		}
 	}
 }
